@@ -1,6 +1,7 @@
 package props
 
 import (
+	"fmt"
 	"go/ast"
 	"go/constant"
 	"go/types"
@@ -26,8 +27,22 @@ const evalFn = "utils.TemporaryEvaluate"
 func runC14(c *engine.Ctx, tier string) {
 	c.Al = engine.NewAliases(c.P, "MD", "metautils.ExtractIncoming()")
 	sp, err := setPaths(c)
-	o := c.Custom("C14.1", "K-order", "transactions.Create in Server.Set ⇐ ExtractIncoming() == nil ∨ TemporaryEvaluate(ExtractIncoming()) returned nil; the evaluation's error edge returns an error before anything is logged",
+	if rp, rerr := rollbackPaths(c); rerr == nil && err == nil {
+		// every request that appends to the transaction log is evaluated: Set and the rollback
+		sp = append(append([]*engine.Path{}, sp...), rp...)
+	} else if rerr != nil {
+		err = rerr
+	}
+	o := c.Custom("C14.1", "K-order", "transactions.Create in Server.Set and in Server.RollbackTransaction ⇐ ExtractIncoming() == nil ∨ TemporaryEvaluate(ExtractIncoming()) returned nil; the evaluation's error edge returns an error before anything is logged; no other function of the northbound packages calls transactions.Create",
 		"nothing is logged for a caller the evaluation refuses")
+	for _, cs := range c.P.CallSites() {
+		if cs.Callee == "store/v2/transaction.Store.Create" && strings.HasPrefix(cs.Pkg, "pkg/northbound/") {
+			o.Eval(1)
+			if !strings.HasSuffix(cs.Func, ".Server.Set") && !strings.HasSuffix(cs.Func, ".Server.RollbackTransaction") {
+				o.Fail(&engine.Violation{Key: cs.Func + "|appends to the transaction log", Pos: cs.Pos, Func: cs.Func, Msg: "a northbound function other than Set and RollbackTransaction appends to the transaction log: it is not covered by the group evaluation rule"})
+			}
+		}
+	}
 	if err != nil {
 		o.Undecided("Server.Set", err.Error())
 	} else {
@@ -38,7 +53,7 @@ func runC14(c *engine.Ctx, tier string) {
 				o.Eval(1)
 				conds := engine.CondsBefore(ref.Path, ref.Idx)
 				if !engine.Entails(conds, clause, c.P.Domain) {
-					o.Fail(&engine.Violation{Key: "Server.Set|create without group evaluation", Pos: c.P.Pos(s.Ev().Pos), Func: ref.Path.Root.Name(),
+					o.Fail(&engine.Violation{Key: ref.Path.Root.Name()[strings.LastIndex(ref.Path.Root.Name(), "Server."):] + "|create without group evaluation", Pos: c.P.Pos(s.Ev().Pos), Func: ref.Path.Root.Name(),
 						Msg: "transactions.Create is reachable on a path on which the group evaluation was not called on the incoming metadata or its error was not honoured", Found: c.RenderConds(conds)})
 					break
 				}
@@ -60,13 +75,16 @@ func runC14(c *engine.Ctx, tier string) {
 			o.Eval(1)
 			r := p.Events[last].Results
 			if len(r) != 2 || r[1] == "nil" || r[0] != "nil" {
-				o.Fail(&engine.Violation{Key: "Server.Set|refusal not returned", Pos: c.P.Pos(p.Events[last].Pos), Func: p.Root.Name(), Msg: "a refused caller does not get an error"})
+				o.Fail(&engine.Violation{Key: p.Root.Name()[strings.LastIndex(p.Root.Name(), "Server."):] + "|refusal not returned", Pos: c.P.Pos(p.Events[last].Pos), Func: p.Root.Name(), Msg: "a refused caller does not get an error"})
 				break
 			}
 		}
 	}
-	o.Done(1)
+	o.Done(2)
 	grantPredicate(c)
+	callerGroupsShape(c)
+	identityReaders(c)
+	identityProvenance(c)
 	targetListing(c)
 }
 
@@ -74,10 +92,10 @@ var bannedPredicates = []string{"strings.Contains(", "strings.HasPrefix(", "stri
 
 // grantPredicate: C14.2.
 func grantPredicate(c *engine.Ctx) {
-	o := c.Custom("C14.2", "predicate", "every granting path of TemporaryEvaluate depends on (a) an == between a non-empty element of the caller's groups and a configured admin group, or (b) all identity keys (preferred_username, name, email, groups) being empty; no substring/prefix/fold/index/regexp test decides a grant",
+	o := c.Custom("C14.2", "predicate", "every granting path of TemporaryEvaluate depends on (a) an == between a whole, non-empty element of utils.CallerGroups(md) and a configured admin group, or (b) all identity keys (preferred_username, name, email) and the caller's groups being empty AND the request not having presented a bearer token to an authenticating server (OIDC_SERVER_URL set ∧ authorization present); no substring/prefix/fold/index/regexp test decides a grant",
 		"a caller with no groups, or whose group merely resembles an administrator group's name, must be refused")
 	defer o.Done(1)
-	paths, err := c.A.PathsOpt(pkgUtils, engine.PathOpts{Roots: []string{"utils.TemporaryEvaluate"}})
+	paths, err := c.A.PathsOpt(pkgUtils, engine.PathOpts{Roots: []string{"utils.TemporaryEvaluate"}, Exact: true, NoInline: true})
 	if err != nil {
 		o.Undecided(evalFn, err.Error())
 		return
@@ -132,7 +150,7 @@ func grantPredicate(c *engine.Ctx) {
 		}
 		monotone[obj.Name()] = ok
 	}
-	groupSrc := `metautils.NiceMD.Get("groups")`
+	groupSrc := "utils.CallerGroups($md)"
 	for _, p := range paths {
 		last := &p.Events[len(p.Events)-1]
 		if last.Kind != engine.EvReturn || len(last.Results) != 1 || last.Results[0] != "nil" {
@@ -173,13 +191,20 @@ func grantPredicate(c *engine.Ctx) {
 		// (b) no identity metadata at all
 		empty := map[string]bool{}
 		for _, l := range conds {
-			for _, k := range []string{"preferred_username", "name", "groups", "email"} {
+			for _, k := range []string{"preferred_username", "name", "email"} {
 				if strings.HasSuffix(l.L, `metautils.NiceMD.Get("`+k+`")`) && l.R == `""` && l.Mask == 2 {
 					empty[k] = true
 				}
 			}
+			if l.L == "len("+groupSrc+")" && l.R == "0" && l.Mask == 2 {
+				empty["groups"] = true
+			}
+			// … and the request did not present a bearer token to an authenticating server
+			if strings.Contains(l.L, `os.Getenv("OIDC_SERVER_URL") != ""`) && strings.Contains(l.L, `metautils.NiceMD.Get("authorization") != ""`) && strings.Contains(l.L, "&&") && l.R == "true" && l.Mask == 5 {
+				empty["token"] = true
+			}
 		}
-		if empty["preferred_username"] && empty["name"] && empty["groups"] && empty["email"] {
+		if empty["preferred_username"] && empty["name"] && empty["groups"] && empty["email"] && empty["token"] {
 			continue
 		}
 		// (a) equality of a non-empty caller group with a configured group
@@ -198,16 +223,9 @@ func grantPredicate(c *engine.Ctx) {
 			}
 			return false
 		}
-		callerToken := func(s string) bool {
-			if strings.HasPrefix(s, "strings.TrimSpace(") {
-				s = strings.TrimSuffix(strings.TrimPrefix(s, "strings.TrimSpace("), ")")
-			}
-			if !strings.HasPrefix(s, "elem(strings.Split(") || !strings.HasSuffix(s, "))") {
-				return false
-			}
-			body := s[len("elem(strings.Split(") : len(s)-2]
-			k := strings.LastIndex(body, ",")
-			return k > 0 && strings.HasSuffix(body[:k], groupSrc) && sepOK(body[k+1:])
+		_ = sepOK
+		callerToken := func(s string) bool { // a whole element of what CallerGroups returns (its shape: C14.2b)
+			return s == "elem("+groupSrc+")"
 		}
 		neverEmpty := func(s string) bool { // elements of Fields/FieldsFunc are never empty
 			return strings.HasPrefix(s, "elem(strings.FieldsFunc(") || strings.HasPrefix(s, "elem(strings.Fields(")
@@ -258,7 +276,7 @@ func grantPredicate(c *engine.Ctx) {
 			return
 		case cutBy != "":
 			o.Fail(&engine.Violation{Key: evalFn + "|caller groups not split by the join separator", Pos: c.P.Pos(last.Pos), Func: evalFn,
-				Msg: "the caller-side operand of the deciding equality is " + c.Render(cutBy) + ", not an element of strings.Split(groups, \";\"): a group whose name contains another separator is cut into pieces and a piece that equals an administrator group admits the caller", Found: c.RenderConds(conds)})
+				Msg: "the caller-side operand of the deciding equality is " + c.Render(cutBy) + ", not an element of utils.CallerGroups(md): a group whose name is cut into pieces (or only the first of the caller's groups) is compared", Found: c.RenderConds(conds)})
 			return
 		case !nonEmpty:
 			o.Fail(&engine.Violation{Key: evalFn + "|empty group admitted", Pos: c.P.Pos(last.Pos), Func: evalFn,
@@ -331,6 +349,150 @@ func targetListing(c *engine.Ctx) {
 					Msg: "under authorization a target is listed without 'target id == caller group' or 'caller group == ROC admin' deciding it", Found: c.RenderConds(conds)})
 				return
 			}
+		}
+	}
+}
+
+// callerGroupsShape: C14.2b. The one reader of the caller's groups returns every metadata value of the
+// key as one whole group (the pinned interceptor adds one value per element of the token's claim): no
+// first-value-only read, no cutting at separators.
+func callerGroupsShape(c *engine.Ctx) {
+	o := c.Custom("C14.2b", "helper shape(CallerGroups)", "utils.CallerGroups ranges over md[\"groups\"] (all values of the key), appends exactly the iterated value, only when it is not empty, and returns the slice it appended to",
+		"'at least one of the caller's groups': every group counts, and a group is compared whole")
+	defer o.Done(1)
+	ps, err := c.A.PathsOpt(pkgUtils, engine.PathOpts{Roots: []string{"utils.CallerGroups"}, Exact: true, NoInline: true})
+	if err != nil || len(ps) == 0 {
+		o.Undecided("utils.CallerGroups", fmt.Sprintf("no paths: %v", err))
+		return
+	}
+	const src = `$md["groups"]`
+	for _, p := range ps {
+		o.Eval(1)
+		last := &p.Events[len(p.Events)-1]
+		ranged := false
+		for i := range p.Events {
+			e := &p.Events[i]
+			switch {
+			case e.Kind == engine.EvLoopEnter && e.Range != "":
+				if e.Range != src {
+					o.Fail(&engine.Violation{Key: "utils.CallerGroups|range", Pos: c.P.Pos(e.Pos), Func: p.Root.Name(), Msg: "the helper ranges over " + c.Render(e.Range) + ", not over every value of md[\"groups\"]"})
+					return
+				}
+				ranged = true
+			case e.Kind == engine.EvCall && e.CalleeName == "append" && len(e.Args) == 2:
+				nonEmpty := false
+				for _, l := range engine.CondsBefore(p, i) {
+					if l.L == "elem("+src+")" && l.R == `""` && l.Mask == 5 {
+						nonEmpty = true
+					}
+				}
+				if e.Args[1] != "elem("+src+")" || !nonEmpty {
+					o.Fail(&engine.Violation{Key: "utils.CallerGroups|element", Pos: c.P.Pos(e.Pos), Func: p.Root.Name(), Msg: "the helper appends " + c.Render(e.Args[1]) + " (non-empty tested: " + fmt.Sprint(nonEmpty) + "), not the whole non-empty metadata value"})
+					return
+				}
+			case e.Kind == engine.EvCall && (strings.HasPrefix(e.CalleeName, "strings.") || e.CalleeName == "metautils.NiceMD.Get"):
+				o.Fail(&engine.Violation{Key: "utils.CallerGroups|cut", Pos: c.P.Pos(e.Pos), Func: p.Root.Name(), Msg: "the helper calls " + e.CalleeName + ": a group value is cut, or only the first value of the key is read"})
+				return
+			}
+		}
+		if !ranged {
+			o.Fail(&engine.Violation{Key: "utils.CallerGroups|range", Pos: c.P.Pos(last.Pos), Func: p.Root.Name(), Msg: "the helper does not range over md[\"groups\"]"})
+			return
+		}
+		o.Site("")
+	}
+}
+
+// identityReaders: C14.4. Decisions are taken on CallerGroups only: md.Get("groups") (the first value of the
+// key) appears nowhere but as an argument of a logging call.
+func identityReaders(c *engine.Ctx) {
+	o := c.Custom("C14.4", "K-own(identity readers)", "in the module, metautils.NiceMD.Get(\"groups\") occurs only as an argument of a logging call; every decision reads the caller's groups through utils.CallerGroups",
+		"NiceMD.Get returns the first value of a key: with one metadata value per group it is one group, the first")
+	defer o.Done(1)
+	for _, pkg := range c.P.Pkgs {
+		rel := strings.TrimPrefix(pkg.PkgPath, engine.ModulePath+"/")
+		if !strings.HasPrefix(rel, "pkg/") {
+			continue
+		}
+		info := pkg.TypesInfo
+		for _, fi := range c.P.FuncsOf(pkg) {
+			if fi.Decl == nil || fi.Decl.Body == nil {
+				continue
+			}
+			var stack []ast.Node
+			ast.Inspect(fi.Decl.Body, func(n ast.Node) bool {
+				if n == nil {
+					stack = stack[:len(stack)-1]
+					return true
+				}
+				stack = append(stack, n)
+				call, ok := n.(*ast.CallExpr)
+				if !ok || len(call.Args) != 1 {
+					return true
+				}
+				sel, ok := call.Fun.(*ast.SelectorExpr)
+				if !ok || sel.Sel.Name != "Get" {
+					return true
+				}
+				if t := info.TypeOf(sel.X); t == nil || !strings.HasSuffix(t.String(), "metautils.NiceMD") {
+					return true
+				}
+				if tv, ok := info.Types[call.Args[0]]; !ok || tv.Value == nil || tv.Value.ExactString() != `"groups"` {
+					return true
+				}
+				o.Site(c.P.Pos(call.Pos()) + " in " + fi.Name())
+				o.Eval(1)
+				logged := false
+				for i := len(stack) - 2; i >= 0; i-- {
+					if pc, ok := stack[i].(*ast.CallExpr); ok {
+						if ps, ok := pc.Fun.(*ast.SelectorExpr); ok {
+							if idn, ok := ps.X.(*ast.Ident); ok && idn.Name == "log" {
+								logged = true
+							}
+						}
+						break
+					}
+					if _, ok := stack[i].(ast.Stmt); ok {
+						break
+					}
+				}
+				if !logged {
+					o.Fail(&engine.Violation{Key: fi.Name() + "|reads md.Get(\"groups\")", Pos: c.P.Pos(call.Pos()), Func: fi.Name(),
+						Msg: "md.Get(\"groups\") is read outside a logging call: it is the first value of the key only (one metadata value per group), so the other groups of the caller do not count"})
+				}
+				return true
+			})
+		}
+	}
+}
+
+// identityProvenance: C14.5. The identity keys the handlers evaluate must come from the verified token
+// only. The library's interceptor ADDS the token's claims to whatever the request metadata already
+// holds under the same key, so with security on the server must clear the identity keys of the incoming
+// metadata before the interceptor runs (a tap handle: grpc.InTapHandle) — the only place the application
+// can do it, since the library installs its interceptor first.
+func identityProvenance(c *engine.Ctx) {
+	o := c.Custom("C14.5", "K-table(server wiring)", "Manager.startNorthboundServer passes northbound.Server.Serve a grpc.InTapHandle option (clearing client-supplied identity metadata) when authorization is enabled",
+		"a caller with a valid token must not be able to supply its own 'groups' (or name, email, preferred_username) as a request header")
+	defer o.Done(1)
+	for _, cs := range c.P.CallSites() {
+		if cs.Pkg != "pkg/manager" || !strings.HasSuffix(cs.Callee, "northbound.Server.Serve") {
+			continue
+		}
+		o.Site(cs.Pos + " " + cs.Callee + " in " + cs.Func)
+		o.Eval(1)
+		tap := false
+		for _, a := range cs.Call.Args {
+			ast.Inspect(a, func(n ast.Node) bool {
+				if sel, ok := n.(*ast.SelectorExpr); ok && sel.Sel.Name == "InTapHandle" {
+					tap = true
+				}
+				return !tap
+			})
+		}
+		if !tap {
+			o.Fail(&engine.Violation{Key: cs.Func + "|identity metadata not cleared before authentication", Pos: cs.Pos, Func: cs.Func,
+				Msg: "the northbound server is started without an option that clears client-supplied identity metadata: the authentication interceptor appends the token's groups behind a 'groups' header sent by the caller, and the handlers evaluate both"})
 		}
 	}
 }
